@@ -142,6 +142,7 @@ def run_property(prop, harnesses, tier, seed, jobs, text, assumptions, design_re
                 except Exception as x:
                     agg['errors'].append('%s: %s' % (h['name'], x)); continue
                 cfg = dict(h['cfg']); cfg.setdefault('dump_every', 50 if tier == 'quick' else 10)
+                cfg.setdefault('time_budget', 150 if tier == 'quick' else 1500)
                 per_h[h['name']] = dict(h=h, ll=ll, cfg=cfg, results=[], t0=time.time())
                 f = pool.submit(run_job, ll, cfg, ()); pending[f] = h['name']
             while pending:
